@@ -120,6 +120,9 @@ func init() {
 						k, after, want)
 				}
 			}
+			// ---- the momentum content offered when the pool is about as full as a momentum (s_poolcontent.go)
+			poolContentScenario(c, &lock)
+			poolBatchDisplaced(c, &lock)
 			// ---- several addresses, some forked by the momentum
 			{
 				st := &poolStable{dbs: map[types.Address]db.DB{}}
